@@ -1209,16 +1209,30 @@ class EqSimplifyMacro(Macro):
             raise VeriTException("eq_simplify", "goal must be an equality")
         lhs, rhs = arg.lhs, arg.rhs
 
+        def distinct_constants(t1, t2):
+            """Whether t1 and t2 are numeric constants with different values."""
+            if not (t1.is_constant() and t2.is_constant()):
+                return False
+            T = t1.get_type()
+            if T == hol_type.IntType:
+                return integer.int_eval(t1) != integer.int_eval(t2)
+            elif T == hol_type.RealType:
+                return real.real_eval(t1) != real.real_eval(t2)
+            else:
+                return False
+
         if lhs.is_equals():
+            # (t = t) <--> true, (c1 = c2) <--> false for different numeric constants
             if lhs.lhs == lhs.rhs and rhs == true:
                 return Thm(arg)
-            elif lhs.lhs != lhs.rhs and rhs == false:
+            elif rhs == false and distinct_constants(lhs.lhs, lhs.rhs):
                 return Thm(arg)
             else:
                 raise VeriTException("eq_simplify", "rhs doesn't obey eq_simplify rule")
         elif lhs.is_not():
-            if not lhs.arg.is_equals() or lhs.arg.lhs == lhs.arg.rhs:
-                raise VeriTException("eq_simplify", "lhs should be an inequality.")
+            # ~(t = t) <--> false
+            if not lhs.arg.is_equals() or lhs.arg.lhs != lhs.arg.rhs:
+                raise VeriTException("eq_simplify", "lhs should be the negation of t = t.")
             if rhs == false:
                 return Thm(arg)
             else:
